@@ -34,7 +34,7 @@ import gen_terms
 from gen_terms import TermGen
 
 PROP = 'C11'
-IMPORTS = 'Kernel Sem Falsify HarnessLib DefCheck'
+IMPORTS = 'Kernel Sem Falsify HarnessLib DefCheck Unify C11Lib'
 
 
 # -------------------------------------------------------------------------
@@ -163,7 +163,7 @@ def judge_definition(run, data, where, exprs, meta):
     if not accepted and reason is None:
         run.stat('rejects_conservative_definition:' + type(d.error).__name__)
     fx = 'true' if os.environ.get('VERIF_MODEL_FIXES', 'on') == 'on' else 'false'
-    exprs.append('(let r := def_check %s %s %s %s in (fst r, snd r))' % (fx, g_str(data['name']), g_ty(T), g_tm(prop)))
+    exprs.append('(def_verdict %s %s %s %s, fst (def_check %s %s %s %s))' % ((fx, g_str(data['name']), g_ty(T), g_tm(prop)) * 2))
     meta.append((data, where, accepted, T, prop, reason))
     run.count(('def', data['name'], data['type'], str(data['prop'])), nontrivial=accepted or reason is not None)
 
@@ -214,6 +214,87 @@ OVERLOADED = [
     ("zero", "nat list", "(0::nat list) = [(0::nat)]", 'good: ground, disjoint'),
     ("zero", "'a list list", "(0::'a list list) = [(0::'a list)]", 'circular: occurrence at a more general type'),
 ]
+
+
+def overlap_family(run, r, n):
+    """items.types_overlap vs the Coq model (Unify.overlap, for which 'no overlap' is proved right) and vs the reference unifier,
+    on pairs of types sharing variable names: a type against an instance, a renamed instance, a wrapped instance, a mutation,
+    an unrelated type, types with differing argument counts."""
+    from kernel.type import TVar, STVar, TConst, TFun
+    vs = [TVar('a'), TVar('b'), STVar('a'), STVar('c')]
+
+    def ty(d):
+        c = r.random()
+        if d == 0 or c < 0.3:
+            return r.choice(vs + [TConst('nat'), TConst('bool')])
+        if c < 0.6:
+            return TConst('list', ty(d - 1))
+        if c < 0.9:
+            return TFun(ty(d - 1), ty(d - 1))
+        return TConst('prod', ty(d - 1), ty(d - 1))
+
+    def inst(T, m):
+        if T.is_tconst():
+            return TConst(T.name, *[inst(A, m) for A in T.args])
+        return m.get(T, T)
+
+    def mutate(T):
+        if T.is_tconst() and T.args and r.random() < 0.7:
+            k = r.randrange(len(T.args))
+            return TConst(T.name, *[mutate(A) if i == k else A for i, A in enumerate(T.args)])
+        return ty(1)
+    pairs = []
+    for _ in range(n):
+        T1 = ty(r.choice([1, 2, 3]))
+        c = r.random()
+        if c < 0.25:
+            T2 = inst(T1, {v: ty(1) for v in vs if r.random() < 0.6})
+        elif c < 0.4:
+            T2 = TConst('list', T1) if r.random() < 0.5 else TFun(T1, T1)
+        elif c < 0.6:
+            T2 = mutate(inst(T1, {v: ty(1) for v in vs if r.random() < 0.4}))
+        elif c < 0.7:
+            T2 = TConst(T1.name, *T1.args[:-1]) if T1.is_tconst() and T1.args else T1
+        else:
+            T2 = ty(r.choice([1, 2, 3]))
+        if r.random() < 0.5:
+            T1, T2 = T2, T1
+        pairs.append((T1, T2))
+    impl = []
+    for T1, T2 in pairs:
+        try:
+            impl.append(bool(items.types_overlap(T1, T2)))
+        except RecursionError:
+            raise
+        except Exception as e:
+            impl.append(None)
+            run.stat('types_overlap_exc:' + type(e).__name__)
+    exprs = ['case_overlap %s %s %s' % (g_ty(T1), g_ty(T2), g_bool(bool(v))) for (T1, T2), v in zip(pairs, impl)]
+    codes = coq_eval_nats(run.wd, IMPORTS, exprs, tag='overlap', shard=150)
+    dis = 0
+    for (T1, T2), v, code in zip(pairs, impl, codes):
+        ref = ref_unify(T1, T2)
+        run.stat('overlap:%s' % ('exc' if v is None else ('yes' if v else 'no')))
+        run.count(('overlap', g_ty(T1), g_ty(T2)), nontrivial=(v is False))
+        if v is None:
+            continue
+        if code == 2:
+            run.stat('overlap_fuel_exhausted')
+        elif code != 1:
+            dis += 1
+            # the model's "no overlap" is a theorem: an implementation "no" where the model says "yes" is a refusal only,
+            # an implementation "yes"... is also only a refusal; the unsound direction is impl no / truth yes
+            kind = 'property' if (v is False and ref) else 'correspondence'
+            if dis <= 5:
+                run.violation(kind, ('types_overlap answers "no overlap" for types with a common instance: %s and %s' if kind == 'property' else
+                                     'correspondence:C11/overlap: model and types_overlap disagree on %s and %s') % (T1, T2),
+                              dict(correspondence='C11/overlap', T1=str(T1), T2=str(T2), repr=[repr(T1), repr(T2)], impl=v, reference_unifier=ref,
+                                   reproduce='items.types_overlap(T1, T2)'),
+                              **(dict(key='C11:overlap-missed') if kind == 'property' else dict(failing_input=False)))
+        if ref != v and code == 1:
+            run.violation('correspondence', 'correspondence:C11/overlap: the reference unifier disagrees with both the model and types_overlap on %s and %s' % (T1, T2),
+                          dict(correspondence='C11/overlap-reference', T1=str(T1), T2=str(T2)), failing_input=False)
+    run.cov['correspondence_overlap'] = dict(cases=len(pairs), disagree=dis)
 
 
 def gen_overloaded(r, n):
@@ -450,25 +531,33 @@ def run_check(tier, seed):
     except Exception as e:
         run.stat('overloaded_family_failed:' + type(e).__name__)
 
-    # model verdicts: vm_compute prints a pair (code, types); evaluate code and the self-occurrence list separately
-    code_exprs = ['(fst %s)' % e for e in exprs]
-    codes = coq_eval_nats(run.wd, IMPORTS, code_exprs, tag='defs', shard=150)
+    # model verdicts: the complete acceptance verdict (shape test + verified overlap test), and the shape code
+    codes = coq_eval_nats(run.wd, IMPORTS, ['(fst %s)' % e for e in exprs], tag='defs', shard=150)
+    shape_codes = coq_eval_nats(run.wd, IMPORTS, ['(snd %s)' % e for e in exprs], tag='defshape', shard=150)
     dis = 0
-    for (data, where, accepted, T, prop, reason), code in zip(meta, codes):
-        if code == 2:
-            # accepted provided no self-occurrence overlaps: decided by the independent unifier
-            occ = [c.T for c in prop.rhs.get_consts() if c.name == data['name']]
-            model_acc = not any(ref_unify(U, T) for U in occ)
+    for (data, where, accepted, T, prop, reason), code, sc in zip(meta, codes, shape_codes):
+        if sc == 2:
             run.stat('self_occurrence_cases')
-        else:
-            model_acc = (code == 1)
+            # cross-check of the model's overlap verdicts with the independent Python unifier
+            occ = [c.T for c in prop.rhs.get_consts() if c.name == data['name']]
+            ref_acc = not any(ref_unify(U, T) for U in occ)
+            if code in (0, 1) and ref_acc != (code == 1):
+                run.violation('correspondence', 'correspondence:C11/overlap: the Coq overlap model and the reference unifier disagree on %s' % data['prop'],
+                              dict(correspondence='C11/overlap', item=data, model_code=code, reference_accepts=ref_acc), failing_input=False)
+        if code == 3:
+            run.stat('overlap_fuel_exhausted')
+            continue
+        model_acc = (code == 1)
         if model_acc != accepted:
             dis += 1
             if dis <= 5:
                 run.violation('correspondence', 'correspondence:C11/def_check: model and Definition.parse disagree on %s' % data['prop'],
-                              dict(correspondence='C11/def_check', item=data, where=where, impl_accepts=accepted, model_code=code,
+                              dict(correspondence='C11/def_check', item=data, where=where, impl_accepts=accepted, model_code=code, shape_code=sc,
                                    reference_reason=reason), failing_input=False)
     run.cov['correspondence'] = dict(cases=len(exprs), disagree=dis, library_definitions=n_lib)
+
+    # ---- types_overlap against its model on generated pairs of types
+    overlap_family(run, r, 300 if tier == 'quick' else 4000)
 
     # ---- items of the library: extensions and round trips
     item_thys = ['logic_base', 'logic', 'set', 'function', 'nat'] if tier == 'quick' else names
